@@ -38,9 +38,14 @@ class AxisTaint(AbsInt):
             return frozenset().union(*[self.flat(x) for x in v[1]]) if v[1] else E
         if isinstance(v, tuple) and v and v[0] == "join":
             return frozenset().union(*[self.flat(x) for x in v[1]])
+        if isinstance(v, tuple) and v and v[0] == "zipped":
+            return frozenset().union(*[self.flat(x) for x in v[1]]) if v[1] else E
         return E
 
     def join(self, vals):
+        vals = list(vals)
+        if len(vals) == 1:
+            return vals[0]
         ints = {v for v in vals if isinstance(v, tuple) and v and v[0] == "int"}
         if len(ints) == 1 and len(vals) == len([v for v in vals if v in ints]):
             return next(iter(ints))
@@ -54,9 +59,14 @@ class AxisTaint(AbsInt):
     def index(self, v, i):
         if isinstance(v, tuple) and v and v[0] == "tuple" and isinstance(i, int) and -len(v[1]) <= i < len(v[1]):
             return v[1][i]
+        if isinstance(v, tuple) and v and v[0] == "zipped" and i == "*":
+            return self.element_of(v, i)
         return self.flat(v)
 
     def element_of(self, v, i):
+        # an element of zip(a, b, ..) is a tuple of one element of each: the components keep their own axes
+        if isinstance(v, tuple) and v and v[0] == "zipped":
+            return ("tuple", tuple(self.element_of(c, "*") if isinstance(c, tuple) and c and c[0] == "zipped" else self.flat(c) for c in v[1]))
         return self.flat(v)
 
     def attribute(self, base, attr, node, ctx):
@@ -113,6 +123,12 @@ class AxisTaint(AbsInt):
         return self.flat(recv) | self._all(args, kwargs)
 
     def call_builtin(self, name, node, args, kwargs, ctx):
+        if name == "zip" and args and not kwargs:
+            return ("zipped", tuple(args))
+        if name == "enumerate" and len(args) == 1:
+            return ("zipped", (E, args[0]))
+        if name in ("list", "tuple", "iter", "reversed") and len(args) == 1 and isinstance(args[0], tuple) and args[0] and args[0][0] == "zipped":
+            return args[0]
         return self._all(args, kwargs)
 
     def call_external(self, dotted, node, args, kwargs, ctx):
@@ -134,11 +150,16 @@ class AxisTaint(AbsInt):
         if isinstance(node, (ast.ListComp, ast.GeneratorExp, ast.SetComp)):
             env = dict(ctx.env)
             out = E
+            def bind(t, v):
+                if isinstance(t, ast.Name):
+                    env[t.id] = v
+                elif isinstance(t, (ast.Tuple, ast.List)):
+                    for i, e in enumerate(t.elts):
+                        bind(e.value if isinstance(e, ast.Starred) else e, self.index(v, i) if not isinstance(e, ast.Starred) else self.flat(v))
             for g in node.generators:
-                it = self.flat(self.ev(g.iter, AbsInt.Ctx(ctx.fi, env, ctx.depth + 1)))
-                out |= it
-                for n in [x.id for x in ast.walk(g.target) if isinstance(x, ast.Name)]:
-                    env[n] = it
+                itv = self.ev(g.iter, AbsInt.Ctx(ctx.fi, env, ctx.depth + 1))
+                out |= self.flat(itv)
+                bind(g.target, self.index(itv, "*"))
             return out | self.flat(self.ev(node.elt, AbsInt.Ctx(ctx.fi, env, ctx.depth + 1)))
         if isinstance(node, (ast.List, ast.Tuple)):
             return frozenset().union(*[self.flat(self.ev(x, ctx)) for x in node.elts]) if node.elts else E
